@@ -18,7 +18,7 @@ pub fn property() -> Property {
         parts: vec![
             Part {
                 name: "output",
-                quick: 12_000,
+                quick: 50_000,
                 thorough: 1_000_000,
                 single_shard: false, supplementary: false,
                 run: |cfg| run_part(cfg, san_positions(), |r| PosCase { fen: gen::position(r, ClockDomain::Keep).fen() }, check_output),
@@ -26,7 +26,7 @@ pub fn property() -> Property {
             },
             Part {
                 name: "parser",
-                quick: 6_000,
+                quick: 25_000,
                 thorough: 500_000,
                 single_shard: false, supplementary: false,
                 run: |cfg| run_part(cfg, (san_positions(), proptest::collection::vec((any::<u16>(), any::<u16>()), 1..12)), |(r, v)| ParserCase { fen: gen::position(r, ClockDomain::Keep).fen(), picks: v.clone() }, check_parser),
